@@ -249,6 +249,7 @@ Inv_C06 == /\ e.err = ""
            /\ (AtEnd => Ok(C06c(S, NH.res)))
 Inv_C07 == /\ (Stable => Ok(C07a(CX, S)) /\ Ok(C07c(CX, S)) /\ Ok(C07d(CX, S)))
            /\ (AtEnd => Ok(C07b(CX, S)))
+           /\ (AtCall /\ ~pre.mis => Ok(C07f(CX, pre.s, S)))
            /\ (AtEnd /\ ~S.aborted /\ S.failed # {} /\ c.flaky = <<>>
                  => Ok(C07e(CX, S, TRUE, Twin(c).s)))
 Inv_C08 == AtEnd => /\ Ok(C08a(CX, S, NH.res, NH.h)) /\ Ok(C08b(CX, S, NH.res, NH.h))
